@@ -19,6 +19,8 @@ CONSTANTS D,          \* dimension 2..4 (3 for kind G)
           Dens,       \* input denominators: {1} or {1, 2} (float/double inputs a/den)
           GenKinds,   \* subset of {"B","S","U","I","G"}
           FirstA,     \* values of the first component of the first vector (splits a big lattice over several TLC runs)
+          SweepDivisors, \* divisors of the small integer sweep (kind W), e.g. 1 .. 255
+          Jitters,    \* number of jittered (non-affine) position sets per solid (kind G)
           MatEntries, \* entries of the affine maps (kind G)
           Stride, Seed \* kind G: every Stride-th matrix, offset Seed % Stride
 
@@ -36,6 +38,8 @@ One_m1 == {-1}
 One_z0 == {0}
 One_p1 == {1}
 One_p2 == {2}
+Div255 == 1 .. 255
+DivOdd == {s \in 1 .. 255 : s % 2 = 1 \/ s % 7 = 0}
 Mat11 == -1 .. 1
 Mat12 == -1 .. 2
 
@@ -49,6 +53,9 @@ Seqify(S) == SetToSeq(S)
 
 TypesFor(a, b, s, den) == IF den # 1 THEN <<"f", "d">> ELSE <<"i", "u", "f", "d", "m">>
 
+CaseT(k, a, b, s, den, sep, g, ty) ==
+  [k |-> k, d |-> D, a |-> a, b |-> b, s |-> s, den |-> den, sep |-> sep, g |-> g, ty |-> ty,
+   txt |-> ""]
 Case(k, a, b, s, den, sep, g) ==
   [k |-> k, d |-> D, a |-> a, b |-> b, s |-> s, den |-> den, sep |-> sep, g |-> g,
    ty |-> TypesFor(a, b, s, den), txt |-> IF k = "I" THEN Seps[sep] \o StreamText(VOver(a, den), Seps[sep]) ELSE ""]
@@ -67,13 +74,40 @@ CasesU == IF "U" \notin GenKinds THEN {} ELSE
 CasesI == IF "I" \notin GenKinds THEN {} ELSE
           { Case("I", Tup(a), ZeroD, 0, den, sep, <<"ring">>) : a \in VecsA, den \in Dens, sep \in 1 .. Len(Seps) }
 
+
+(* --------------- kind W: integer scalar division / multiplication sweep ---------------- *)
+(* d = 4, int and unsigned only: every numerator 0 .. 255 (and, for int, its negative)   *)
+(* against every divisor 1 .. 255, packed four numerators per vector; plus large         *)
+(* operands up to 2^30.  C++ integer division truncates; TLA+ defines it directly.       *)
+SweepSmall ==
+  UNION { { CaseT("S", <<n, n + 64, n + 128, n + 192>>, <<0, 0, 0, 0>>, s, 1, 0, <<"sweep", "sweepmul">>, <<"i", "u">>),
+            CaseT("S", <<-n, -(n + 64), -(n + 128), -(n + 192)>>, <<0, 0, 0, 0>>, s, 1, 0, <<"sweep", "sweepmul">>, <<"i">>),
+            CaseT("S", <<n, n + 64, n + 128, n + 192>>, <<0, 0, 0, 0>>, -s, 1, 0, <<"sweep", "sweepmul">>, <<"i">>) }
+          : n \in 0 .. 63, s \in SweepDivisors }
+BigNums == << <<1000, 4999, 9999, 10000>>, <<65535, 65536, 99991, 1000003>>, <<16777215, 16777216, 16777217, 123456789>>,
+              <<1073741823, 1073741824, 1073741789, 536870912>>, <<2401, 4802, 9604, 117649>>, <<999, 9801, 5041, 6889>> >>
+BigDivs == {1, 2, 3, 7, 10, 49, 98, 99, 100, 255, 256, 1000, 4999, 9999, 10000, 65535, 65537, 1000003, 1073741823}
+SweepBig ==
+  UNION { { CaseT("S", BigNums[i], <<0, 0, 0, 0>>, s, 1, 0, <<"sweep">>, <<"i", "u">>),
+            CaseT("S", [k \in 1 .. 4 |-> -BigNums[i][k]], <<0, 0, 0, 0>>, s, 1, 0, <<"sweep">>, <<"i">>) }
+          : i \in 1 .. Len(BigNums), s \in BigDivs }
+CasesW == IF "W" \notin GenKinds THEN {} ELSE SweepSmall \cup SweepBig
+
 (* ------------------------------ kind G --------------------------------- *)
-Shapes == {"tet", "cube", "prism"}
+Shapes == {"tet", "cube", "prism", "penta", "quad"}
 BaseOf(sh) ==
   CASE sh = "tet"   -> << <<0,0,0>>, <<1,0,0>>, <<0,1,0>>, <<0,0,1>> >>
     [] sh = "cube"  -> << <<0,0,0>>, <<1,0,0>>, <<1,1,0>>, <<0,1,0>>, <<0,0,1>>, <<0,1,1>>, <<1,1,1>>, <<1,0,1>> >>
     [] sh = "prism" -> << <<0,0,0>>, <<1,0,0>>, <<0,1,0>>, <<0,0,1>>, <<1,0,1>>, <<0,1,1>> >>
+    [] sh = "penta" -> << <<2,2,0>>, <<1,1,0>>, <<0,2,0>>, <<0,0,0>>, <<2,0,0>> >>       \* a single non-convex pentagon, reflex corner second
+    [] sh = "quad"  -> << <<0,0,0>>, <<2,0,0>>, <<2,2,1>>, <<0,2,0>> >>                   \* a single non-planar quadrilateral
 MeshTypesOf(sh) == CASE sh = "tet" -> {"poly", "tet"} [] sh = "cube" -> {"poly", "hex"} [] sh = "prism" -> {"poly"}
+                     [] sh = "penta" -> {"poly"} [] sh = "quad" -> {"poly"}
+(* non-affine positions: every corner of 2 * base moved by a pseudo-random offset in {0,1}^3 (pattern j):   *)
+(* quadrilateral faces become non-planar, so that "the first two edges of the halfface" is a real choice     *)
+JBit(j, v, i) == ((((j * 131 + v * 31 + i * 7 + (Seed % 1000)) * 7919) % 10007) \div 3) % 2
+JitterPos(sh, j) == [v \in 1 .. Len(BaseOf(sh)) |-> [i \in 1 .. 3 |-> 2 * BaseOf(sh)[v][i] + JBit(j, v, i)]]
+CaseJ(sh, mt, vt, j) == [k |-> "G", d |-> 3, shape |-> sh, mt |-> mt, vt |-> vt, pos |-> JitterPos(sh, j)]
 Row == [1 .. 3 -> MatEntries]
 Det(m) == m[1][1] * (m[2][2] * m[3][3] - m[2][3] * m[3][2])
         - m[1][2] * (m[2][1] * m[3][3] - m[2][3] * m[3][1])
@@ -88,10 +122,12 @@ Img(m, t, p) == [i \in 1 .. 3 |-> m[i][1] * p[1] + m[i][2] * p[2] + m[i][3] * p[
 CaseG(sh, mt, vt, m, t) ==
   [k |-> "G", d |-> 3, shape |-> sh, mt |-> mt, vt |-> vt,
    pos |-> [v \in 1 .. Len(BaseOf(sh)) |-> Img(m, t, BaseOf(sh)[v])]]
-CasesG == IF "G" \notin GenKinds THEN {} ELSE UNION { { CaseG(sh, mt, vt, m, t) : mt \in MeshTypesOf(sh), vt \in {"d", "f"}, m \in Mats, t \in Shifts } :
+CasesJ == IF "G" \notin GenKinds THEN {} ELSE
+          UNION { { CaseJ(sh, mt, vt, j) : mt \in MeshTypesOf(sh), vt \in {"d", "f"}, j \in 1 .. Jitters } : sh \in Shapes \ {"tet"} }
+CasesG == IF "G" \notin GenKinds THEN {} ELSE CasesJ \cup UNION { { CaseG(sh, mt, vt, m, t) : mt \in MeshTypesOf(sh), vt \in {"d", "f"}, m \in Mats, t \in Shifts } :
                   sh \in Shapes }
 
-Cases == CasesB \cup CasesS \cup CasesU \cup CasesI
+Cases == CasesB \cup CasesS \cup CasesU \cup CasesI \cup CasesW
 
 (* ------------- laws of the definitions (checked on every case) --------- *)
 LawsB(a, b) ==
@@ -121,7 +157,7 @@ LawsS(a, s) ==
 Laws(cs) ==
   LET A == VOver(cs.a, cs.den)  B == VOver(cs.b, cs.den)  S == Rat(cs.s, cs.den) IN
   CASE cs.k = "B" -> LawsB(A, B)
-    [] cs.k = "S" -> LawsS(A, S)
+    [] cs.k = "S" /\ Abs(cs.s) <= 4 /\ (\A i \in 1 .. Len(cs.a) : Abs(cs.a[i]) <= 4) -> LawsS(A, S)
     [] cs.k = "U" -> LawsU(A)
     [] OTHER -> TRUE
 ASSUME U32(-1) = <<65535, 65535>> /\ U32(-65536) = <<65535, 0>> /\ U32(65537) = <<1, 1>> /\ U32(0) = <<0, 0>>
